@@ -107,6 +107,42 @@ def aggregate_queries():
     return qs
 
 
+def expr_queries():
+    """aggregates, group keys and sort keys that are expressions which are errors for some solutions; group keys that are not selected"""
+    qs = []
+    plus1 = lambda v: {"e": "+", "a": ev(v), "b": ec(N(1))}
+    w_all = grp(bgp((V("s"), V("pp"), V("w"))))                              # ?w ranges over numbers, strings, IRIs, a blank node
+    w_opt = grp(bgp((V("s"), I("p"), V("v"))), {"t": "optional", "g": grp(bgp((V("s"), I("q"), V("w"))))})
+    for w, var in ((w_all, "w"), (w_opt, "w"), (w_opt, "v"), (grp(bgp((V("s"), I("p"), V("v")))), "v")):
+        e1 = plus1(var)
+        for gb in ([], ["s"]):
+            for f in ("count", "min", "max", "sample", "sum", "avg"):
+                for dist in (False, True):
+                    if dist and f in ("min", "max", "sample"):
+                        continue
+                    a = {"f": f, "distinct": dist, "as": "a", "e": e1}
+                    qs.append({"form": "select", "proj": gb + ["a"], "where": w, "groupby": [ev(x) for x in gb], "aggs": [a]})
+        # GROUP BY (expr) without AS, isIRI(?x), and a plain key that is not selected
+        for key in (e1, {"e": "isiri", "a": ev(var)}, ev(var), ev("s")):
+            for a in (agg("count*"), agg("count", "s", True), agg("max", "s")):
+                qs.append({"form": "select", "proj": ["a"], "where": w, "groupby": [key], "aggs": [a]})
+                for desc in (False, True):
+                    if key["e"] == "var":
+                        # ORDER BY the group key, selected or not, and by the aggregate's alias
+                        qs.append({"form": "select", "proj": ["a"], "where": w, "groupby": [key], "aggs": [a], "orderby": [{"e": key, "desc": desc}]})
+                        qs.append({"form": "select", "proj": [key["v"], "a"], "where": w, "groupby": [key], "aggs": [a], "orderby": [{"e": key, "desc": desc}]})
+                        qs.append({"form": "select", "proj": [key["v"], "a"], "where": w, "groupby": [key], "aggs": [a], "orderby": [{"e": ev("a"), "desc": desc}, {"e": key, "desc": not desc}]})
+        # ORDER BY an expression that is an error for some solutions
+        for desc in (False, True):
+            for lim in (None, 2):
+                q = {"form": "select", "proj": ["*"], "where": w, "orderby": [{"e": e1, "desc": desc}, {"e": ev("s"), "desc": False}]}
+                if lim:
+                    q["limit"] = lim
+                qs.append(q)
+                qs.append(dict(q, proj=["s", var]))
+    return qs
+
+
 def D(n, d=1):
     return {"k": "dec", "n": n, "d": d}
 
@@ -157,6 +193,14 @@ def run(out, tier, seed):
                 continue
             jobs.append({"cfg": {"facade": "graph"}, "events": [data, {"op": "query", "q": q}]})
         for qi, q in enumerate(aq):
+            if quick and (qi + di) % 2 != seed % 2:
+                continue
+            jobs.append({"cfg": {"facade": "graph"}, "events": [data, {"op": "query", "q": q}]})
+    xq = expr_queries()
+    out.extra["expression_queries"] = len(xq)
+    for di, d in enumerate(DATASETS[:3]):
+        data = {"op": "data", "quads": [t + ["D"] for t in d], "graphs": []}
+        for qi, q in enumerate(xq):
             if quick and (qi + di) % 2 != seed % 2:
                 continue
             jobs.append({"cfg": {"facade": "graph"}, "events": [data, {"op": "query", "q": q}]})
